@@ -17,7 +17,11 @@ theorem StepOK.of_err {α : Type} {req : Bool} {r r1 : Reader} {e : Err}
 theorem readSlice8_le (old : Bytes) (len : Int) (r : Reader) : r.Le (readSlice8 old len r).2 := by
   unfold readSlice8; split
   · exact Reader.Le.refl _
-  · exact readFull_le _ _
+  · cases hc : checkLength len r with
+    | mk res r' =>
+      cases res with
+      | error e => rw [(checkLength_err hc).1]; exact Reader.Le.refl _
+      | ok u => rw [(checkLength_ok hc).1]; exact readFull_le _ _
 
 theorem arrOverflow_le (e : Ty) (r : Reader) : r.Le (arrOverflow e r).2 := by
   unfold arrOverflow
@@ -120,9 +124,14 @@ theorem dec_pos (env : Env) : ∀ f : Nat,
                   | error er => exact StepOK.of_err (p1.trans hl)
                   | ok len =>
                     simp only
-                    split
-                    · exact StepOK.of_err (p1.trans hl)
-                    · exact StepOK.of_lt_le hlt (hl.trans (ihE _ _ _ _))
+                    cases hc : checkLength len r2 with
+                    | mk res3 r3 =>
+                      cases res3 with
+                      | error er =>
+                        rw [(checkLength_err hc).1]; exact StepOK.of_err (p1.trans hl)
+                      | ok u =>
+                        rw [(checkLength_ok hc).1]
+                        exact StepOK.of_lt_le hlt (hl.trans (ihE _ _ _ _))
               · split
                 · split
                   · cases hd : skipTo tyBYTE 0 true r1 with
@@ -171,7 +180,11 @@ theorem dec_pos (env : Env) : ∀ f : Nat,
                   have hl := res_le_of (readLen_le r1) hd
                   cases res2 with
                   | error er => exact StepOK.of_err (p1.trans hl)
-                  | ok len => exact StepOK.of_lt_le hlt (hl.trans (ihA _ _ _ _ _ _))
+                  | ok len =>
+                    simp only
+                    split
+                    · exact StepOK.of_err (p1.trans hl)
+                    · exact StepOK.of_lt_le hlt (hl.trans (ihA _ _ _ _ _ _))
               · exact StepOK.of_err p1
       | map k v =>
         rw [Total.decVar_map]
@@ -195,7 +208,16 @@ theorem dec_pos (env : Env) : ∀ f : Nat,
                 have hl := res_le_of (readLen_le r1) hd
                 cases res2 with
                 | error er => exact StepOK.of_err (p1.trans hl)
-                | ok len => exact StepOK.of_lt_le hlt (hl.trans (ihP _ _ _ _ _))
+                | ok len =>
+                  simp only
+                  cases hc : checkLength len r2 with
+                  | mk res3 r3 =>
+                    cases res3 with
+                    | error er =>
+                      rw [(checkLength_err hc).1]; exact StepOK.of_err (p1.trans hl)
+                    | ok u =>
+                      rw [(checkLength_ok hc).1]
+                      exact StepOK.of_lt_le hlt (hl.trans (ihP _ _ _ _ _))
       | struct name =>
         rw [Total.decVar_struct]
         split
